@@ -27,7 +27,7 @@ META = {
 
 DERIVE = ["copy", "add_record", "constructor", "update", "add_bundle_doc", "add_bundle_empty_doc", "unified", "unified_bundle", "flattened",
           "json", "xml", "rdf"]
-MUTATE = ["add_attrs", "add_record", "add_ns", "set_default", "add_bundle", "set_time", "add_type", "conv", "add_attrs_new_ns"]
+MUTATE = ["add_attrs", "add_record", "add_ns", "set_default", "add_bundle", "set_time", "add_type", "conv", "add_attrs_new_ns", "via_lookup"]
 
 
 def observe(obj):
@@ -70,8 +70,27 @@ def mutate(g, w, b, c, rec_handles):
     obj = w.conts[c]
     m = r.choice(MUTATE)
     recs = obj.records
-    if m in ("add_attrs", "set_time", "add_type", "conv", "add_attrs_new_ns") and not recs:
+    if m in ("add_attrs", "set_time", "add_type", "conv", "add_attrs_new_ns", "via_lookup") and not recs:
         m = "add_record"
+    if m == "via_lookup":
+        # the record is reached the way a caller reaches it, by its identifier: what get_record() hands out belongs to this
+        # container, so a change made through it is a change to this container and to nothing else
+        named = [x.identifier for x in recs if x.identifier is not None]
+        if not named:
+            return mutate_fallback(g, w, c)
+        found = w.get_record(c, r.choice(named))
+        target = found[r.randrange(len(found))] if found else None
+        if target is None:
+            return mutate_fallback(g, w, c)
+        pair = (existing_or_new_name(g, target), "looked-up-%d" % r.randint(0, 99))
+        own = [i for i, x in enumerate(recs) if x is target]
+        if own:
+            w.add_attrs(w.rec_at(c, own[0]), [pair])
+        else:
+            # not one of the container's own records: the model has no such object; the implementation is run alone and the
+            # independence oracle judges what the change reached
+            target.add_attributes([pair])
+        return m
     if m == "add_attrs_new_ns":
         # through a record, with a name from a namespace nobody has registered yet: whoever owns the record gains it
         h = w.rec_at(c, r.randrange(len(recs)))
